@@ -136,7 +136,9 @@ def run_case(spec, ctx):
             py = np.asarray(S.prox(y, zz), dtype=float)
             nx = np.linalg.norm(x)
             expect = x if nx <= radius else (radius * x / nx if nx > 0 else x)
-            tol = 1e-12 * (nx + radius) + 1e-300
+            # the projection of an outside point has the magnitude of the radius, however large the argument is: its accuracy
+            # is judged on that scale (a point 1e12 radii away must still land ON the sphere, not merely near it relative to |x|)
+            tol = 1e-12 * (nx if nx <= radius else radius) + 1e-300
             det = {"x": x, "r": r, "z": z, "radius": radius, "prox": p, "expected": expect}
             sig.append([x.tolist(), r, z])
             both_sides[0] |= nx <= radius; both_sides[1] |= nx > radius
@@ -184,6 +186,27 @@ def run_case(spec, ctx):
             Jx, Jy, Jz = S.Jacobian(x, y, zz, rho, act)
             sig.append([x.tolist(), y.tolist(), z, rho, r])
             both_sides[0] |= bool(act); both_sides[1] |= not act
+            # positive homogeneity: scaling x, y and z by s > 0 scales the projection and the residual by s and leaves the
+            # Jacobian unchanged - percussions of order 1e-12 (tiny steps) or forces of order 1e9 are the same problem
+            s_ = float(10.0 ** rng.uniform(-14, -8)) if rng.random() < 0.6 else float(10.0 ** rng.uniform(5, 11))
+            try:
+                res1 = np.asarray(S.residual(x, y, zz, rho, act), dtype=float)
+                res2 = np.asarray(S.residual(s_ * x, s_ * y, s_ * zz, rho, act), dtype=float)
+                J2 = S.Jacobian(s_ * x, s_ * y, s_ * zz, rho, act)
+            except Exception as e_:
+                ctx.violation("Sphere.residual", "raises for a rescaled argument", {"x": x, "y": y, "z": z, "rho": rho, "r": r, "scale": s_, "error": f"{type(e_).__name__}: {e_}"[:200]})
+            else:
+                ctx.mon("ball.homogeneity")
+                ctx.cls("scale:tiny" if s_ < 1 else "scale:huge")
+                if np.max(np.abs(res2 - s_ * res1)) > 1e-9 * s_ * (np.max(np.abs(res1)) + np.max(np.abs(x)) + np.max(np.abs(y))):
+                    ctx.violation("Sphere.residual", "residual is not positively homogeneous (scaled arguments do not give the scaled residual)",
+                                  {"x": x, "y": y, "z": z, "rho": rho, "r": r, "scale": s_, "residual": res1, "residual_scaled_arguments": res2})
+                for nm_, Ja, Jb in zip(("Jx", "Jy", "Jz"), (Jx, Jy, Jz), J2):
+                    Ja, Jb = np.asarray(dense(Ja), dtype=float), np.asarray(dense(Jb), dtype=float)
+                    if Ja.shape != Jb.shape or np.max(np.abs(Ja - Jb)) > 1e-8 * (1 + np.max(np.abs(Ja))):
+                        ctx.violation(f"Sphere.Jacobian.{nm_}", "reported Jacobian changes when all arguments are scaled by a positive factor",
+                                      {"x": x, "y": y, "z": z, "rho": rho, "r": r, "scale": s_, "J": Ja, "J_scaled_arguments": Jb})
+                        break
             hrel = 1e-5
             for name, J, f, v in (
                 ("Jx", Jx, lambda v_: S.residual(v_, y, zz, rho, act), x),
